@@ -3,28 +3,53 @@
 Observation of the real compiler on generated (network, option) points, judged by the Lean outcome
 specification (Spec/Outcome.lean). An escaping exception is a violation with the network as replay;
 known crashes are keyed by <ExceptionType>@<module>.<function> of the innermost repository frame."""
+import c13_corpus
+import c13_gen
 import common
+import pending
 import pipe_common
 from common import Check, main_wrapper
 
 
 def refine_site(site, o):
     """Known crashes are keyed by exception site plus, where the unchanged tree's failures share a sharper condition,
-    that condition — so that a different failure at the same site is still reported."""
-    opts = o.get("opts") or []
-    if site == "AssertionError@scheduler.use_fast_storage_for_feature_maps":
-        # unchanged tree: only with a tiny arena cache (<= 16 KiB) under --optimise Performance
-        cache = int(opts[opts.index("--arena-cache-size") + 1]) if "--arena-cache-size" in opts else 393216
-        return site + (":arena-cache<=16384" if cache <= 16384 else ":arena-cache>16384")
-    return site
+    that condition - so that a different failure at the same site is still reported. (The arena-cache refinement of
+    use_fast_storage_for_feature_maps went with repair C13-36; sites inside the helper-arithmetic modules are refined with the
+    calling lowering, see c13_keys.py.)"""
+    import c13_keys
+
+    return c13_keys.refine(site, o)      # helper arithmetic (fp_math / scaling / numeric_util): keyed with the calling lowering
 
 
 def main():
     ck = Check("C13", "other")
     ck.lean_stage(["VelaVerif.Props.C13"])
+    # repairs written but not yet in the tree under test (known_findings.txt `fixed: ... PENDING-n [was key=...]`): their
+    # keys stay open exactly as long as the patch still applies forward to this tree (see pending.py)
+    open_pending = pending.register(ck)
     n = 12000 if ck.thorough else 1200
     profiles = ["weird", "mixed", "cpu", "pattern", "lut", "pattern", "weights", "cascade", "weird", "pattern", "elementwise", "pattern"]
-    outs = pipe_common.run_corpus(ck, n, profiles=profiles, want={"more_opts": True}, corpus_first=False)
+    # quantisation / option extremes on every operator that computes with the quantisation parameters (extremes_gen.py) and
+    # operators kept off the NPU of every kind a rewrite pass reads, --force-symmetric-int-weights cases (reject_gen.py)
+    profiles += ["act_extremes", "act_extremes", "rejected"]
+    own = None
+    if ck.replay_arg:
+        # replays of the regression corpus / the targeted families are compiled by their own workers
+        import json
+
+        import pipeline
+
+        rp = json.load(open(ck.replay_arg))
+        rp = rp.get("replay", rp)
+        prof = str(rp.get("profile", ""))
+        if prof.startswith(("c13reg:", "c13x:")):
+            pipeline.load_vela()
+            own = [c13_corpus.compile_one(prof[7:])] if prof.startswith("c13reg:") else [c13_gen.compile_one((rp["seed"], rp["index"]))]
+    outs = own if own is not None else pipe_common.run_corpus(ck, n, profiles=profiles, want={"more_opts": True}, corpus_first=False, sweep=True)
+    if not ck.replay_arg:
+        # deterministic reproducers of every repaired crash first: a regression is a plain VIOLATION
+        # ... then the targeted families (operator neighbourhoods the general profiles rarely produce, see c13_gen.py)
+        outs = c13_corpus.run() + c13_gen.run(ck.seed, 3900 if ck.thorough else 390) + outs
     reqs = []
     for o in outs:
         if "harness_exception" in o:
@@ -45,7 +70,7 @@ def main():
     bad = 0
     for o, rq, v in zip(outs, reqs, verdicts):
         ck.count("status_" + o["status"])
-        ck.count("profile_" + o["profile"])
+        ck.count("profile_" + ("c13reg" if o["profile"].startswith("c13reg:") else o["profile"]))
         for k in o.get("src_ops", []):
             ck.count("op_" + k)
         nontrivial.add((o["profile"], tuple(o.get("src_ops", [])), tuple(o.get("desc", {}).get("inputs", [[]])[0] if o.get("desc") else ())))
@@ -57,7 +82,9 @@ def main():
                          {"profile": o["profile"], "seed": o["seed"], "index": o["idx"], "opts": o.get("opts"),
                           "network": o.get("desc"), "status": o["status"], "exception": o.get("exc"), "site": site,
                           "traceback_tail": o.get("tb"), "stdout_tail": o.get("stdout_tail"),
-                          "how_to_replay": "pipe_common._worker((seed, index, profile, {'more_opts': True}))"},
+                          "how_to_replay": ("c13_corpus.compile_one(profile[7:])" if o["profile"].startswith("c13reg:") else
+                                            "c13_gen.compile_one((seed, index))" if o["profile"].startswith("c13x:") else
+                                            "pipe_common._worker((seed, index, profile, {'more_opts': True}))")},
                          key=site)
     for o, rq, v in list(zip(outs, reqs, verdicts))[:4]:
         ck.sample({"network": o.get("desc"), "opts": o.get("opts"), "outcome": rq, "acceptable": v})
@@ -70,6 +97,8 @@ def main():
         "rule": "case = (generated network, CLI options); distinct by (profile, operator list, input shape); every case is non-trivial "
                 "(it runs the whole compiler)",
         "unacceptable_endings": bad,
+        "regression_corpus": len(c13_corpus.ENTRIES),
+        "pending_repairs_open_in_this_tree": sorted(open_pending),
     }, assumptions=["generated models are structurally valid TFLite (built with the schema's own builder classes)",
                     "NumPy 2.5.3 / Python 3.12 as installed"])
 
